@@ -135,10 +135,65 @@ def conj(parts):
     return z3.simplify(z3.And(ps))
 
 
+def col_value(t, row, name, rowidx):
+    if name.lower() == 'rowid':
+        # rows are kept in insertion order: the position is the rowid
+        return ('int', z3.BitVecVal(rowidx if rowidx is not None else 0, 64))
+    return row[t.ci(name)]
+
+
 def where_cond(t, row, where, params, base):
     parts = []
+    rowidx = base
     for c in where:
         kind = c[0]
+        if kind in ('lt', 'le', 'gt', 'ge') or (kind in ('eq', 'ne') and (c[1].lower() == 'rowid' or c[2][0] == 'sub')):
+            lhs = col_value(t, row, c[1], rowidx)
+            rhs = c[2]
+            cands = []   # (condition under which this is the sub-select's value, value)
+            if rhs[0] == 'sub':
+                stn, scol, sub = rhs[1]
+                stt = DB_OF[0].tables.get(stn)
+                if stt is None:
+                    raise Unsupported('no such table ' + stn)
+                earlier = []
+                for j, r in enumerate(stt.rows):
+                    if r[0] is False:
+                        continue
+                    m = conj([where_cond(stt, r[1], sub, params, j)] + ([r[0]] if r[0] is not True else []))
+                    if m is False:
+                        continue
+                    first = conj([m] + [(not e) if isinstance(e, bool) else z3.Not(e) for e in earlier])
+                    cands.append((first, col_value(stt, r[1], scol, j)))
+                    earlier.append(m)
+            elif rhs[0] == 'param':
+                cands.append((True, params[rhs[1]]))
+            elif rhs[0] == 'int':
+                cands.append((True, ('int', z3.BitVecVal(rhs[1], 64))))
+            else:
+                raise Unsupported('comparison operand %r' % (rhs,))
+            alts = []
+            for cnd, val in cands:
+                if lhs[0] != 'int' or val[0] != 'int':
+                    if kind in ('eq', 'ne'):
+                        e = cell_eq(lhs, val)
+                        if kind == 'ne':
+                            e = (not e) if isinstance(e, bool) else z3.Not(e)
+                    else:
+                        raise Unsupported('ordering comparison of non-integers')
+                else:
+                    a, b = lhs[1], val[1]
+                    e = {'lt': a < b, 'le': a <= b, 'gt': a > b, 'ge': a >= b, 'eq': a == b, 'ne': a != b}[kind]
+                    e = z3.simplify(e)
+                    e = True if z3.is_true(e) else (False if z3.is_false(e) else e)
+                x = conj([cnd, e])
+                if x is True:
+                    alts = [True]
+                    break
+                if x is not False:
+                    alts.append(x)
+            parts.append(True if alts == [True] else (False if not alts else z3.simplify(z3.Or(alts))))
+            continue
         if kind in ('eq', 'ne'):
             ci = t.ci(c[1])
             rhs = c[2]
@@ -297,7 +352,7 @@ def execute(it, st, db, sql, params):
         for r in t.rows:
             if r[0] is False:
                 continue
-            e = where_cond(t, r[1], where, params, None)
+            e = where_cond(t, r[1], where, params, t.rows.index(r))
             e = conj([r[0], e]) if r[0] is not True else e
             if e is False or not decide(it, st, e, '%s row matches the UPDATE' % tn):
                 continue
@@ -341,7 +396,7 @@ def execute(it, st, db, sql, params):
         for r in t.rows:
             if r[0] is False:
                 continue
-            e = where_cond(t, r[1], where, params, None)
+            e = where_cond(t, r[1], where, params, t.rows.index(r))
             e = conj([r[0], e]) if r[0] is not True else e
             if e is not False and decide(it, st, e, '%s row matches the DELETE' % tn):
                 gone.append(r)
@@ -367,7 +422,7 @@ def select_row(it, st, db, sql, params):
     for r in t.rows:
         if r[0] is False:
             continue
-        e = where_cond(t, r[1], where, params, None)
+        e = where_cond(t, r[1], where, params, t.rows.index(r))
         e = conj([r[0], e]) if r[0] is not True else e
         if e is not False and decide(it, st, e, '%s row matches the SELECT' % tn):
             return 'row', Opaque('Row', cells=[r[1][t.ci(c)] for c in cols], names=[c.lower() for c in cols])
